@@ -578,3 +578,6 @@ LEVEL_NOTE = (
     'judged; only unambiguous casts are generated.'
 )
 TECHNIQUE = 'property-based testing (Hypothesis) vs reference model; exhaustive enumeration of small arrangements; differential Dense vs Frame'
+
+# coverage-guided (atheris) pass of the thorough tier: (campaign, libFuzzer runs, instrumented module prefixes)
+FUZZ = [('entry', 30000, ['forml.io._input', 'forml.io.layout'])]
